@@ -99,7 +99,7 @@ def replay_runtime_known(ctx, k):
             return False
     kind = k.get("replay")
     if kind == "ref_mismatch":
-        ref = corr.run_model(ctx.sc, ctx.model(), ctx.tables(), lines, extra="-ref", tag="kf_ref")
+        ref = corr.run_model(ctx.sc, ctx.model(), ctx.tables(), lines, extra=k.get("spec", "-ref"), tag="kf_ref")
         return any(not same_on(fields, impl.get(corr.case_id(l), {}), ref.get(corr.case_id(l), {})) for l in lines)
     if kind == "diverges":
         return all(impl.get(corr.case_id(l), {}).get("out") in corr.NONTERM for l in lines)
@@ -110,7 +110,7 @@ def replay_runtime_known(ctx, k):
 
 def known_quirks_for(prop_id):
     return {k["quirk"]: k["id"] for k in C.known_findings().get("findings", [])
-            if k["property"] == prop_id and k.get("status") == "known"}
+            if "quirk" in k and k["property"] == prop_id and k.get("status") == "known"}
 
 ALL_FIELDS = ["out", "val", "errs", "cnt", "maxfail", "gs", "trace"]
 
@@ -299,6 +299,186 @@ def c10(ctx, rep):
     rep.cov["optimize_pairs_outside_default_options (budget hit)"] = skipped
 
 # ------------------------------------------------------------------ C08 (left-recursive rules)
+def c08_skip(line, impl, ref):
+    """outside the statement: the expression budget was hit (the two sides count differently), a
+    parse that does not return, or a rule that is not of the form A <- A a.. / b.. (the specification diverges)"""
+    hit = lambda o: o.get("out") in corr.NONTERM or o.get("out") is None or MAXEXPR_MSG.encode().hex() in (o.get("errs") or "")
+    if corr.case_opts(line)["maxexpr"] not in (0, 3000):
+        return True      # the generator's mark of a grammar that is not well-formed (other kinds of cycles): run under a small budget
+    return hit(impl) or hit(ref)
+
+def flip_memo(line):
+    """the same case with Memoize(false) (None if it already is)"""
+    i = line.index("(opts ") + 6
+    if line[i] != "1":
+        return None
+    cid = corr.case_id(line)
+    twin = line[:i] + "0" + line[i + 1:]
+    return twin.replace("(case " + cid + " ", "(case " + cid + "~M ", 1)
+
+def c08_derive(lines):
+    return [t for t in (flip_memo(l) for l in lines) if t]
+
 @prop("C08", replay_known=replay_runtime_known)
 def c08(ctx, rep):
-    run_corr(ctx, rep, [("c08", 300, 8000)], fields=["out", "val", "errs", "gs", "st", "cnt"], ref_fields=None)
+    kf = {k["id"] for k in C.known_findings().get("findings", []) if k["property"] == "C08" and k.get("status") == "known"}
+    from .props import same_on
+    leader_cache = {}
+    def swap_leader(line):
+        """the same case with the leader flag moved from the alias rule A2 <- R0 to the rule R0 through which
+        the generated grammars enter the cycle (None if the case is not of that kind)"""
+        import re
+        if not re.search(r"\(rule x4132 x[0-9a-f]* 1 1 ", line) or not re.search(r"\(rule x5230 x[0-9a-f]* 0 1 ", line):
+            return None
+        l2 = re.sub(r"\(rule x4132 (x[0-9a-f]*) 1 1 ", r"(rule x4132 \1 0 1 ", line)
+        return re.sub(r"\(rule x5230 (x[0-9a-f]*) 0 1 ", r"(rule x5230 \1 1 1 ", l2)
+    def classify(line, impl, model, problem):
+        if "specification disagree" in problem and "C08-LEADER-NOT-ENTRY" in kf:
+            # the cycle is entered through a rule that is not its leader: attributed when the model with the
+            # leader flag moved to the entered rule agrees with the specification
+            l2 = swap_leader(line)
+            if l2:
+                cid = corr.case_id(line)
+                if cid not in leader_cache:
+                    mm = corr.run_model(ctx.sc, ctx.model(), ctx.tables(), [l2], tag="swap")
+                    ref = getattr(rep, "spec_live", {}).get(cid, {})
+                    leader_cache[cid] = same_on(["out", "val"], mm.get(cid, {}), ref)
+                if leader_cache[cid]:
+                    return "C08-LEADER-NOT-ENTRY"
+        # Memoize(true): a rule memoised during a growth attempt that is then discarded keeps its memo entry while
+        # the errors it logged are rolled back; a later hit does not log them again.  Recognised by the twin of the
+        # case with Memoize(false): it has exactly the specification's error list and the same value.
+        if "specification disagree on errs" not in problem or "C08-MEMO-DISCARDED-ERRS" not in kf:
+            return None
+        twin = getattr(rep, "impl_live", {}).get(corr.case_id(line) + "~M")
+        if twin and twin.get("val") == impl.get("val") and twin.get("out") == impl.get("out") and twin.get("errs") != impl.get("errs"):
+            ref = rep.spec_live.get(corr.case_id(line) + "~M", {}) if hasattr(rep, "spec_live") else {}
+            if ref.get("errs") == twin.get("errs"):
+                return "C08-MEMO-DISCARDED-ERRS"
+        return None
+    run_corr(ctx, rep, [("c08", 300, 8000)], fields=["out", "val", "errs", "gs", "st", "cnt"],
+             ref_fields=["out", "val", "errs"], scope=lambda l: True, spec_flag="-lrspec", ref_skip=c08_skip,
+             known_quirks=known_quirks_for("C08"), derive=c08_derive, classify=classify)
+    # Memoize on/off pairs give the same value (error lists: see the known finding)
+    pairs = 0
+    for cid, l in rep.case_lines.items():
+        if cid.endswith("~M"):
+            a, b = rep.impl_obs.get(cid[:-2], {}), rep.impl_obs.get(cid, {})
+            if c08_skip(l, a, b):
+                continue
+            pairs += 1
+            if not same_on(["out", "val"], a, b):
+                rep.violation("Memoize changes the result of a left-recursive grammar", {"case": rep.case_lines.get(cid[:-2]), "memo": a, "nomemo": b}, found=True)
+    rep.cov["memoize_pairs_compared"] = pairs
+
+# ------------------------------------------------------------------ C06 (Memoize / Debug / Statistics)
+def set_opt(line, idx, val, tag):
+    """twin of a case with option number idx (0 memo, 1 debug, 2 stats) set to val"""
+    i = line.index("(opts ") + 6
+    f = line[i:line.index(")", i)].split(" ")
+    if f[idx] == val:
+        return None
+    f[idx] = val
+    cid = corr.case_id(line)
+    twin = line[:i] + " ".join(f) + line[line.index(")", i):]
+    return twin.replace("(case " + cid + " ", "(case " + cid + "~" + tag + " ", 1)
+
+def c06_derive(lines):
+    out = []
+    for l in lines:
+        for idx, tag in ((0, "m"), (1, "d"), (2, "s")):
+            for val in ("0", "1"):
+                t = set_opt(l, idx, val, tag + val)
+                if t:
+                    out.append(t)
+        # everything on
+        t = l
+        for idx in (0, 1, 2):
+            t2 = set_opt(t, idx, "1", "x")
+            t = t2 if t2 else t
+        if t is not l:
+            cid = corr.case_id(l)
+            import re
+            t = re.sub(r"\(case \S+ ", "(case %s~all " % cid, t, 1)
+            out.append(t)
+    return out
+
+def n_exprs(line):
+    import re
+    return len(re.findall(r"\((?:lit|cls|any|seq|alt|star|plus|opt|and|not|lab|act|andc|notc|stc|ref|rec|throw) ", line))
+
+def c06_oracle(line, impl, model):
+    """Memoize(true) bounds the work: evaluated expressions <= grammar expressions x (input length + 1)"""
+    o = corr.case_opts(line)
+    if not o["memo"] or impl.get("out") in corr.NONTERM or not impl.get("cnt"):
+        return None
+    t = corr.case_tmpl(line)
+    if t[0] or t[2]:
+        return None          # optimized template has no memo table; left recursion is excluded by the statement
+    bound = n_exprs(line) * (len(corr.case_input(line)) + 1)
+    if int(impl["cnt"]) > bound:
+        return "Memoize(true): %s expressions evaluated, more than %d expressions x (%d + 1) positions" % (impl["cnt"], n_exprs(line), len(corr.case_input(line)))
+    return None
+
+@prop("C06", replay_known=replay_runtime_known)
+def c06(ctx, rep):
+    from .props import same_on
+    # grammars that are not well-formed run under an expression budget (the generator's watchdog): budgets are
+    # C16's business and Memoize changes how they are counted, so those cases are outside this property
+    nobudget = lambda l: corr.case_opts(l)["maxexpr"] == 0
+    run_corr(ctx, rep, [("c06", 250, 5000)], fields=["out", "val", "errs", "cnt"],
+             ref_fields=["out", "val", "errs"], scope=nobudget, known_quirks=known_quirks_for("C06"),
+             derive=c06_derive, oracle=lambda l, i, m: c06_oracle(l, i, m) if nobudget(l) else None)
+    # every option set against the default options, on the real parsers
+    pairs = 0
+    known = known_quirks_for("C06")
+    for cid, l in rep.case_lines.items():
+        if "~" not in cid:
+            continue
+        base = cid.split("~")[0]
+        # the default-options member of the family
+        dflt = None
+        for cand in (base, base + "~m0", base + "~d0", base + "~s0"):
+            cl = rep.case_lines.get(cand)
+            if cl:
+                o = corr.case_opts(cl)
+                if not o["memo"] and not o["debug"] and not o["stats"]:
+                    dflt = cand
+                    break
+        if not dflt or dflt == cid or not nobudget(l):
+            continue
+        a, b = rep.impl_obs.get(dflt, {}), rep.impl_obs.get(cid, {})
+        if a.get("out") in corr.NONTERM or b.get("out") in corr.NONTERM:
+            continue
+        pairs += 1
+        if not same_on(["out", "val", "errs"], a, b):
+            # differences already attributed to the memo-label finding through the specification are not repeated
+            if cid in getattr(rep, "attributed_cases", set()):
+                continue
+            rep.violation("an option set changes the result: %s" % {k: v for k, v in corr.case_opts(l).items() if k in ("memo", "debug", "stats")},
+                          {"case": l, "default_options": a, "with_options": b}, found=True)
+    rep.cov["option_pairs_compared"] = pairs
+    # Memoize on left-recursive grammars (templates with -support-left-recursion): same success/failure and value
+    # (error lists: known finding C08-MEMO-DISCARDED-ERRS, decided by the C08 check)
+    n = ctx.q(150, 3000)
+    lines, pretty = corr.generate(ctx.sc, ctx.gen(), "c08", ctx.seed, n, tag="c06lr")
+    lines = [l for l in lines if corr.case_opts(l)["maxexpr"] in (0, 3000)]
+    twins = [t for t in (flip_memo(l) for l in lines) if t]
+    base = {corr.case_id(t)[:-2] for t in twins}
+    sel = [l for l in lines if corr.case_id(l) in base] + twins
+    model = corr.run_model(ctx.sc, ctx.model(), ctx.tables(), sel, tag="c06lrm")
+    ok = [l for l in sel if model.get(corr.case_id(l), {}).get("out") not in corr.NONTERM]
+    impl = corr.run_impl(ctx.sc, ctx.hosts(), ok, 4000)
+    lrpairs = 0
+    for t in twins:
+        a, b = impl.get(corr.case_id(t)[:-2], {}), impl.get(corr.case_id(t), {})
+        if not a or not b or c08_skip(t, a, b):
+            continue
+        lrpairs += 1
+        if not same_on(["out", "val"], a, b):
+            rep.violation("Memoize(true) changes the result of a left-recursive grammar",
+                          {"case": next(l for l in lines if corr.case_id(l) == corr.case_id(t)[:-2]), "memo": a, "nomemo": b}, found=True)
+        for cid in (corr.case_id(t)[:-2], corr.case_id(t)):
+            if not same_on(["out", "val", "errs"], model.get(cid, {}), impl.get(cid, {})):
+                rep.violation("model/implementation disagree on a left-recursive memo case", {"case": cid, "model": model.get(cid), "impl": impl.get(cid)}, found=False)
+    rep.cov["left_recursive_memo_pairs_compared"] = lrpairs
